@@ -80,6 +80,25 @@ pub fn drive(ver: Ver, input: &[u8], cuts: &[usize], max_size: u32, min_chunk: u
                 }
                 DecOut::NeedMore => {
                     st.need_more += 1;
+                    // a frame that is completely available is a packet or an error, never need-more
+                    if in_publish.is_none() {
+                        if let Ok((first, hl, rl)) = fr {
+                            if avail_at_call >= hl + rl {
+                                let what = match rf::decode(ver, &input[start..start + hl + rl]) {
+                                    Ok(_) => "valid".to_string(),
+                                    Err(DecErr::Malformed(class, _)) => format!("malformed {class:?}"),
+                                    Err(e) => format!("{e:?}"),
+                                };
+                                out.push(fnd(
+                                    "stall",
+                                    format!("{} {}: complete frame answered need-more ({what})", vname(ver), pkt_kind(first)),
+                                    format!("the frame {} is completely available ({avail_at_call} bytes) but decode answered need-more", rf::hex(&input[start..start + hl + rl])),
+                                    inp(),
+                                ));
+                                break 'outer;
+                            }
+                        }
+                    }
                     // oversize frames must be rejected as soon as the fixed header is complete
                     if in_publish.is_none() {
                         if let Ok((_, _, rl)) = fr {
